@@ -27,6 +27,10 @@ pub struct CrashPoint {
     /// are lost: 0 = no, 1 = all of them, 2 = a seeded subset.
     #[serde(default)]
     pub lose_dirents: u8,
+    /// With `lose_unsynced`: one 4 KiB page inside the un-synced end of a file never reached
+    /// the disk (zero-filled) although a later page did.
+    #[serde(default)]
+    pub hole: bool,
 }
 
 #[derive(Clone, Debug, Serialize, Deserialize, PartialEq)]
